@@ -381,7 +381,7 @@ ASMJIT_FAVOR_SIZE Error EmitHelper::emit_arg_move(
       if (dst_scalar_id == TypeId::kFloat32 && src_scalar_id == TypeId::kFloat64) {
         src_size = Support::min(dst_size * 2, src_size);
         dst_size = src_size / 2;
-        inst_id = (src_size <= 8) ? ids().cvtss2sd() : ids().cvtps2pd();
+        inst_id = (src_size <= 8) ? ids().cvtsd2ss() : ids().cvtpd2ps();
 
         if (dst_size == 32) {
           dst.set_signature(Reg::signature_of_t<RegType::kVec256>());
@@ -395,7 +395,7 @@ ASMJIT_FAVOR_SIZE Error EmitHelper::emit_arg_move(
       if (dst_scalar_id == TypeId::kFloat64 && src_scalar_id == TypeId::kFloat32) {
         src_size = Support::min(dst_size, src_size * 2) / 2;
         dst_size = src_size * 2;
-        inst_id = (src_size <= 4) ? ids().cvtsd2ss() : ids().cvtpd2ps();
+        inst_id = (src_size <= 4) ? ids().cvtss2sd() : ids().cvtps2pd();
 
         dst.set_signature(RegUtils::signature_of_vec_by_size(dst_size));
         if (src.is_reg() && src_size >= 32) {
@@ -442,6 +442,12 @@ ASMJIT_FAVOR_SIZE Error EmitHelper::emit_arg_move(
     src.as<Mem>().set_size(src_size);
 
   _emitter->set_inline_comment(comment);
+
+  // AVX versions of scalar conversions have three operands - the second provides the remaining bits of the destination.
+  if (inst_id == Inst::kIdVcvtss2sd || inst_id == Inst::kIdVcvtsd2ss) {
+    return _emitter->emit(inst_id, dst, dst, src);
+  }
+
   return _emitter->emit(inst_id, dst, src);
 }
 
